@@ -9,6 +9,14 @@ same way denote the same symbol."""
 import z3
 
 
+def ssimp(t):
+    """z3.simplify, except that z3 expands seq.nth into guarded nth_i/nth_u: keep the original form then"""
+    r = z3.simplify(t)
+    if 'seq.nth_' in r.sexpr():
+        return t
+    return r
+
+
 def _is_literal(t):
     if z3.is_int_value(t) or z3.is_rational_value(t) or z3.is_true(t) or z3.is_false(t) or z3.is_string_value(t):
         return True
@@ -117,6 +125,7 @@ class FoldRegistry:
         step: z3 term mentioning idx (z3 Int const).  Returns (decl, arg_terms) such that the
         fold value for the first n elements is decl(*arg_terms, n)."""
         idx_ids = {idx.get_id()}
+        step = ssimp(step)
         subs = maximal_index_free(step, idx_ids)
         params = []
         pairs = []
